@@ -19,8 +19,107 @@ META = {
 }
 
 
+def config_scenarios(ctx, n):
+    """implementation-only oracle for configurations the edit machine does not generate: tracks built from a
+    prepared FeatureDict whose position feature has its own key (a project saved with that key), 2D+t and 3D+t,
+    any scale; strokes through UserUpdateSegmentation with undo / redo; after every step area = pixel count x
+    voxel size and position = scaled centroid of the current mask, for every node"""
+    import networkx as nx
+    import numpy as np
+    from funtracks.data_model import SolutionTracks
+    from funtracks.features import Area, FeatureDict, LineageID, Position, Time, TrackletID
+    from funtracks.user_actions import UserUpdateSegmentation
+
+    rng = ctx.rng
+    out, stats = [], {"config_scenarios": 0, "config_custom_position_key": 0, "config_steps": 0}
+
+    def measure(seg, scale, node, time):
+        coords = np.nonzero(seg[time] == node)
+        sp = np.asarray(scale[1:], dtype=float)
+        return len(coords[0]) * float(np.prod(sp)), [float(np.mean(c) * s_) for c, s_ in zip(coords, sp)]
+
+    for k in range(n):
+        ndim = rng.choice([3, 3, 4])
+        frame = (8, 10) if ndim == 3 else (4, 6, 8)
+        scale = rng.choice([[1.0] * ndim, [1.0, 2.0, 0.5] if ndim == 3 else [1.0, 3.0, 2.0, 0.5], [1.0] + [0.5] * (ndim - 1)])
+        pos_key = rng.choice(["pos", "centroid", "location"])
+        axes = ["y", "x"] if ndim == 3 else ["z", "y", "x"]
+        seg = np.zeros((3, *frame), dtype=rng.choice([np.uint16, np.int64]))
+        if ndim == 3:
+            seg[0, 1:4, 1:5] = 1
+            seg[1, 2:6, 3:7] = 2
+        else:
+            seg[0, 0:2, 1:4, 1:5] = 1
+            seg[1, 1:3, 2:5, 3:7] = 2
+        g = nx.DiGraph()
+        for node, tm in ((1, 0), (2, 1)):
+            a_, c_ = measure(seg, scale, node, tm)
+            g.add_node(node, **{"t": tm, pos_key: c_, "area": a_, "track_id": 1, "lineage_id": 1})
+        g.add_edge(1, 2)
+        fd = FeatureDict(features={"t": Time(), pos_key: Position(axes=axes), "area": Area(ndim=ndim),
+                                   "track_id": TrackletID(), "lineage_id": LineageID()},
+                         time_key="t", position_key=pos_key, tracklet_key="track_id", lineage_key="lineage_id")
+        tr = SolutionTracks(g, segmentation=seg, scale=scale, features=fd)
+        stats["config_scenarios"] += 1
+        stats["config_custom_position_key"] += int(pos_key != "pos")
+        desc = {"scenario": k, "ndim": ndim, "scale": scale, "position_key": pos_key}
+
+        def check(label):
+            s_ = np.asarray(tr.segmentation)
+            for n_ in tr.graph.nodes:
+                tm = tr.get_time(n_)
+                a_, c_ = measure(s_, scale, n_, tm)
+                sa, sp_ = tr.graph.nodes[n_].get("area"), tr.graph.nodes[n_].get(pos_key)
+                if sa is None or abs(float(sa) - a_) > 1e-9 or sp_ is None or any(abs(float(x) - y) > 1e-9 for x, y in zip(sp_, c_)):
+                    return "after %s: node %d stores area %s / %s %s, its mask gives area %s / centroid %s" % (label, n_, sa, pos_key, sp_, a_, c_)
+            return None
+
+        def stroke(value, tm, sl, track):
+            arr = np.asarray(tr.segmentation)
+            region = np.zeros(arr.shape[1:], dtype=bool)
+            region[sl] = True
+            old = arr[tm][region]
+            groups = []
+            for ov in np.unique(old):
+                m = region & (arr[tm] == ov)
+                if value == ov:
+                    continue
+                idx = np.nonzero(m)
+                groups.append(((np.full(len(idx[0]), tm), *idx), int(ov)))
+            if not groups:
+                return
+            for px, _ in groups:
+                tr.set_pixels(px, value)
+            UserUpdateSegmentation(tr, value, groups, track)
+
+        sl2 = (slice(1, 4), slice(6, 9)) if ndim == 3 else (slice(1, 3), slice(2, 5), slice(6, 8))
+        sl_er = (slice(2, 3), slice(3, 7)) if ndim == 3 else (slice(1, 2), slice(2, 5), slice(3, 7))
+        sl_new = (slice(5, 7), slice(0, 3)) if ndim == 3 else (slice(3, 4), slice(4, 6), slice(0, 3))
+        steps = [("grow node 2", lambda: stroke(2, 1, sl2, 1)), ("undo", tr.undo), ("redo", tr.redo),
+                 ("erase part of node 2", lambda: stroke(0, 1, sl_er, 1)), ("new node 7", lambda: stroke(7, 2, sl_new, 1)),
+                 ("undo", tr.undo), ("undo", tr.undo), ("redo", tr.redo), ("redo", tr.redo)]
+        try:
+            bad = check("construction")
+            for label, fn in steps:
+                if bad:
+                    break
+                fn()
+                stats["config_steps"] += 1
+                bad = check(label)
+        except Exception as e:  # noqa: BLE001
+            bad = "%s raised %s: %s" % (label, type(e).__name__, str(e)[:100])
+        if bad:
+            out.append({"what": "prepared FeatureDict (position key %r): %s" % (pos_key, bad), "input": desc, "signature": "C08:config"})
+    return out, stats
+
+
 def run(ctx):
-    return G.run_property(ctx, "C08", n_quick=400, n_thorough=6000, seg_p=1.0, toggles=0.12)
+    res = G.run_property(ctx, "C08", n_quick=400, n_thorough=6000, seg_p=1.0, toggles=0.12)
+    viol, stats = config_scenarios(ctx, 24 if ctx.quick() else 240)
+    res["violations"] = list(res.get("violations", [])) + viol
+    res.setdefault("stats", {}).update(stats)
+    res["evaluations"] = res.get("evaluations", 0) + stats["config_steps"]
+    return res
 
 
 def replay(ctx, payload):
